@@ -79,6 +79,7 @@ class Loops:
     def describe(self, ex, v):
         if isinstance(v, IterDesc):
             return v
+        v = ex.force(v)
         if isinstance(v, tuple):
             return IterDesc('pytuple', items=list(v))
         if not isinstance(v, z3.ExprRef):
